@@ -118,11 +118,12 @@ class PExt(object):
     """An external callable with an assumed contract: may raise one of `raises` (each a free choice,
     explored as its own path) or returns effect(engine, args, kwargs)."""
 
-    def __init__(self, name, effect=None, raises=(), pure=False):
+    def __init__(self, name, effect=None, raises=(), pure=False, always_raises=False):
         self.name = name
         self.effect = effect
         self.raises = tuple(raises)
         self.pure = pure
+        self.always_raises = always_raises
 
 
 class SameAs(object):
@@ -1944,6 +1945,8 @@ class Engine(object):
         if isinstance(fn, Helper):
             return fn.fn(self, *args)
         if isinstance(fn, PExt):
+            if fn.always_raises:
+                raise PyRaise(PExc(fn.raises[0], tag=fn.name))
             for exc in fn.raises:
                 if self.decide_free('raises_%s_in_%s' % (getattr(exc, '__name__', exc), fn.name)):
                     raise PyRaise(PExc(exc, tag=fn.name))
